@@ -199,6 +199,16 @@ structure Mon where
   e : End
   rs : Spec.Reasm := {}
   fetched : List (List Nat × Nat) := []
+  /-- sender-side ghosts: the specification-side reassembly of the data segments this end has put
+  on the wire, and the messages the application has queued successfully -/
+  tx : Spec.Reasm := {}
+  submitted : List (List Nat) := []
+
+/-- feed one wire segment into a reassembly (handshake segments and garbage carry no SDU data) -/
+def feedSeg (rs : Spec.Reasm) (seg : List Nat) : Spec.Reasm :=
+  match decodeHdr seg with
+  | .ok (h, p) => if h.hs then rs else rs.feed h p
+  | .error _ => rs
 
 /-- everything the outside world can do to one end: the application (`send`, `fetch`), the GATT
 glue (`poll`), and the peer — well-behaved or hostile — (`rx` of arbitrary bytes) -/
@@ -212,17 +222,19 @@ def Mon.step (m : Mon) : EOp → Except Fail (Mon × Out)
   | .send d =>
     match m.e.send d with
     | .error f => .error f
-    | .ok (e, ok) => .ok ({ m with e := e }, .queued ok)
+    | .ok (e, ok) => .ok ({ m with e := e, submitted := if ok then m.submitted ++ [d] else m.submitted }, .queued ok)
   | .poll now =>
     match m.e.processOutgoing now with
     | .error f => .error f
-    | .ok (e, seg) => .ok ({ m with e := e }, if seg.length > 0 then .tx seg else .none)
+    | .ok (e, seg) =>
+      .ok ({ m with e := e, tx := if seg.length > 0 then feedSeg m.tx seg else m.tx },
+           if seg.length > 0 then .tx seg else .none)
   | .rx data now =>
     match m.e.processIncoming data now with
     | .error f => .error f
     | .ok e =>
-      .ok ({ e := e, rs := (ghostRx m.rs m.fetched.length data).1,
-             fetched := m.fetched.take (ghostRx m.rs m.fetched.length data).2 }, .delivered)
+      .ok ({ m with e := e, rs := (ghostRx m.rs m.fetched.length data).1,
+                    fetched := m.fetched.take (ghostRx m.rs m.fetched.length data).2 }, .delivered)
   | .fetch cap =>
     match m.e.recv cap with
     | .error f => .error f
@@ -1264,5 +1276,633 @@ theorem step_erase (l : LMon) (op : Op) : eraseRes (l.step op) = l.erase.step op
       cases mo with
       | none => simp only [eraseRes, erase_set]
       | some b => simp only [eraseRes, erase_set]
+
+
+/-! ## Sending side: what is on the wire reassembles to what was submitted -/
+
+/-- headers as `prep_tx_data` builds them -/
+structure Hdr.Canon (h : Hdr) : Prop where
+  hs : h.hs = false
+  mgmt : h.mgmt = false
+  opcode : h.opcode = 0
+  ackNum : if h.ack then h.ackNum < 256 else h.ackNum = 0
+  seqNum : h.seqNum < 256
+  msgLen : if h.beg then h.msgLen < 65536 else h.msgLen = 0
+
+theorem decode_encode (h : Hdr) (hc : h.Canon) (p : List Nat) : decodeHdr (h.encode ++ p) = .ok (h, p) := by
+  obtain ⟨hs, mgmt, ack, fin, cont, beg, opcode, ackNum, seqNum, msgLen⟩ := h
+  obtain ⟨h1, h2, h3, h4, h5, h6⟩ := hc
+  simp only at h1 h2 h3 h4 h5 h6
+  subst h1 h2 h3
+  cases ack <;> cases fin <;> cases cont <;> cases beg <;>
+    simp [Hdr.encode, Hdr.flagsByte, decodeHdr, bit, takeIf] at h4 h6 ⊢ <;>
+    (try subst h4) <;> (try subst h6) <;> (try simp) <;> omega
+
+
+theorem baseHdr_canon (s : Session) (hs : SInv s) : s.baseHdr.Canon ∧ s.baseHdr.beg = false ∧
+    s.baseHdr.fin = false ∧ s.baseHdr.cont = false := by
+  obtain ⟨_, ha, hq⟩ := baseHdr_fields s hs
+  refine ⟨⟨rfl, rfl, rfl, ?_, hq, by simp [Session.baseHdr]⟩, rfl, rfl, rfl⟩
+  show if s.recv.pendingAck.isSome = true then s.recv.pendingAck.getD 0 < 256 else s.recv.pendingAck.getD 0 = 0
+  cases h : s.recv.pendingAck with
+  | none => simp
+  | some a =>
+    simp
+    have : s.baseHdr.ackNum = a := by simp [Session.baseHdr, h]
+    omega
+
+/-- what `prep_tx_data` puts into a data segment -/
+theorem buildSegment_spec {s : Session} (hs : SInv s) {data : List Nat} {off : Nat}
+    (hne : data ≠ []) (hoff : off < data.length) (hlen : data.length ≤ 1232) (hmtu : 20 ≤ s.mtu)
+    {h : Hdr} {p : List Nat} (hok : s.buildSegment data off = .ok (h, p)) :
+    h.Canon ∧ h.beg = decide (off = 0) ∧ h.cont = decide (off ≠ 0) ∧ (off = 0 → h.msgLen = data.length) ∧
+    0 < p.length ∧ p = (data.drop off).take p.length ∧ off + p.length ≤ data.length ∧
+    h.fin = decide (off + p.length = data.length) := by
+  obtain ⟨hcan, hb0, hf0, hc0⟩ := baseHdr_canon s hs
+  unfold Session.buildSegment at hok
+  have hne' : (!data.isEmpty) = true := by simp [hne]
+  simp only [hne', if_true] at hok
+  have hgt : ¬ off > data.length := by omega
+  simp only [hgt, if_false] at hok
+  have hm : data.length % 65536 = data.length := by omega
+  -- the header before the ending flag is decided
+  obtain ⟨H, hH⟩ : ∃ H : Hdr, H = (if off = 0 then { s.baseHdr with beg := true, msgLen := data.length % 65536 }
+      else { s.baseHdr with cont := true }) := ⟨_, rfl⟩
+  rw [← hH] at hok
+  have hHl : H.len ≤ 6 := hdr_len_le _
+  rw [csub_ok (Nat.le_trans hHl (by omega))] at hok
+  simp only at hok
+  have hh := Prod.mk.inj (Except.ok.inj hok)
+  have hpl : p.length = min (data.drop off).length (s.mtu - H.len) := by
+    rw [← hh.2]; simp
+  have hdl : (data.drop off).length = data.length - off := by simp
+  have hHc : H.Canon ∧ H.beg = decide (off = 0) ∧ H.cont = decide (off ≠ 0) ∧ (off = 0 → H.msgLen = data.length) ∧
+      H.fin = false := by
+    rw [hH]
+    by_cases h0 : off = 0
+    · simp only [h0, if_true]
+      exact ⟨⟨hcan.hs, hcan.mgmt, hcan.opcode, hcan.ackNum, hcan.seqNum, by simp; omega⟩, by simp, by simp [hc0],
+        fun _ => by simp [hm], hf0⟩
+    · rw [if_neg h0]
+      exact ⟨⟨hcan.hs, hcan.mgmt, hcan.opcode, hcan.ackNum, hcan.seqNum, by simpa [hb0] using hcan.msgLen⟩,
+        by simp [hb0, h0], by simp [h0], fun h => absurd h h0, hf0⟩
+  obtain ⟨hc1, hc2, hc3, hc4, hc5⟩ := hHc
+  refine ⟨?_, ?_, ?_, ?_, by omega, ?_, by omega, ?_⟩
+  · rw [← hh.1]
+    split
+    · exact ⟨hc1.hs, hc1.mgmt, hc1.opcode, hc1.ackNum, hc1.seqNum, hc1.msgLen⟩
+    · exact hc1
+  · rw [← hh.1]; split <;> simp [hc2]
+  · rw [← hh.1]; split <;> simp [hc3]
+  · intro h; rw [← hh.1]; split <;> simp [hc4 h]
+  · rw [hpl, ← hh.2]
+  · rw [← hh.1]
+    split
+    · rename_i hce; simp; omega
+    · rename_i hce; simp [hc5]; omega
+
+
+theorem prepTxData_inv {s : Session} {data : List Nat} {off now : Nat} {s' : Session} {seg : List Nat}
+    {off' : Nat} (hok : s.prepTxData data off now = .ok (s', seg, off')) :
+    (seg = [] ∧ off' = off ∧ s' = s) ∨
+    (∃ h p, s.buildSegment data off = .ok (h, p) ∧ seg = h.encode ++ p ∧ off' = off + p.length) := by
+  unfold Session.prepTxData at hok
+  split at hok
+  · left
+    have hh := Prod.mk.inj (Except.ok.inj hok)
+    have h2 := Prod.mk.inj hh.2
+    exact ⟨h2.1.symm, h2.2.symm, hh.1.symm⟩
+  · right
+    cases hb : s.buildSegment data off with
+    | error e => rw [hb] at hok; cases hok
+    | ok hp =>
+      rw [hb] at hok
+      obtain ⟨h, p⟩ := hp
+      simp only at hok
+      split at hok
+      · cases hok
+      · split at hok
+        · cases hok
+        · split at hok
+          · cases hok
+          · have hh := Prod.mk.inj (Except.ok.inj hok)
+            have h2 := Prod.mk.inj hh.2
+            exact ⟨h, p, rfl, h2.1.symm, h2.2.symm⟩
+
+/-- **Representation of the sending side**: `tx` is the specification-side reassembly of the data
+segments emitted so far, `sub` the messages accepted by `send`: everything submitted is either
+completely on the wire (`tx.done`) or is the SDU in progress, of which exactly the first `off`
+bytes are on the wire. -/
+structure TxRep (e : End) (tx : Spec.Reasm) (sub : List (List Nat)) : Prop where
+  done : tx.done ++ (if e.sdu = [] then [] else [e.sdu]) = sub
+  cur : tx.cur = e.sdu.take e.off
+  rem : tx.remaining = (if e.off = 0 then 0 else e.sdu.length - e.off)
+  offLt : e.sdu ≠ [] → e.off < e.sdu.length
+  offZ : e.sdu = [] → e.off = 0
+
+theorem feedSeg_encode (tx : Spec.Reasm) (h : Hdr) (hc : h.Canon) (p : List Nat) :
+    feedSeg tx (h.encode ++ p) = tx.feed h p := by
+  unfold feedSeg
+  rw [decode_encode h hc p]
+  simp [hc.hs]
+
+theorem dataStep_tx {e : End} (he : EInv e) {tx : Spec.Reasm} {sub : List (List Nat)} (ht : TxRep e tx sub)
+    {now : Nat} {e' : End} {seg : List Nat} (hok : e.dataStep now = .ok (e', seg)) :
+    TxRep e' (if seg.length > 0 then feedSeg tx seg else tx) sub ∧
+    (seg.length > 0 → ∃ h p, decodeHdr seg = .ok (h, p) ∧ h.hs = false) := by
+  unfold End.dataStep at hok
+  split at hok
+  · rename_i hc
+    simp at hc
+    obtain ⟨hne, hest⟩ := hc
+    cases h2 : e.s.prepTxData e.sdu e.off now with
+    | error f => rw [h2] at hok; cases hok
+    | ok r =>
+      rw [h2] at hok
+      obtain ⟨s2, sg, off2⟩ := r
+      simp only at hok
+      rcases prepTxData_inv h2 with ⟨h0, h1, _⟩ | ⟨h, p, hb, hsg, hoff2⟩
+      · -- window full: nothing sent
+        subst h0
+        simp only [List.length_nil, Nat.lt_irrefl, if_false] at hok
+        have hh := Prod.mk.inj (Except.ok.inj hok)
+        rw [← hh.1, ← hh.2]
+        simp only [List.length_nil, Nat.lt_irrefl, if_false]
+        exact ⟨⟨ht.done, ht.cur, ht.rem, ht.offLt, ht.offZ⟩, fun h => by simp at h⟩
+      · have hmtu := (he.s.est hest).1
+        have hofflt := ht.offLt hne
+        obtain ⟨hcan, hbeg, hcont, hml, hpl, hpe, hle, hfin⟩ :=
+          buildSegment_spec he.s hne hofflt he.len hmtu hb
+        have hsgl : sg.length > 0 := by
+          rw [hsg]; simp; omega
+        simp only [hsgl, if_true] at hok
+        have hfs : feedSeg tx sg = tx.feed h p := by rw [hsg]; exact feedSeg_encode tx h hcan p
+        have hdec : ∃ h' p', decodeHdr sg = .ok (h', p') ∧ h'.hs = false :=
+          ⟨h, p, by rw [hsg]; exact decode_encode h hcan p, hcan.hs⟩
+        have htk : e.sdu.take (e.off + p.length) = e.sdu.take e.off ++ p := by
+          rw [List.take_add]; rw [← hpe]
+        by_cases hend : off2 = e.sdu.length
+        · -- last segment of the SDU
+          simp only [hend, if_true] at hok
+          have hh := Prod.mk.inj (Except.ok.inj hok)
+          rw [← hh.1, ← hh.2]
+          simp only [hsgl, if_true]
+          refine ⟨?_, fun _ => hdec⟩
+          rw [hfs]
+          have hfin' : h.fin = true := by rw [hfin]; simp; omega
+          have hfull : e.sdu.take e.off ++ p = e.sdu := by
+            rw [← htk]; apply List.take_of_length_le; omega
+          have hcur : (if h.beg = true then p else tx.cur ++ p) = e.sdu := by
+            by_cases h0 : e.off = 0
+            · have : h.beg = true := by rw [hbeg]; simp [h0]
+              simp only [this, if_true]
+              rw [h0] at hfull; simpa using hfull
+            · have : h.beg = false := by rw [hbeg]; simp [h0]
+              simp only [this, Bool.false_eq_true, if_false]
+              rw [ht.cur]; exact hfull
+          have hfeed : tx.feed h p = { cur := [], remaining := 0, done := tx.done ++ [e.sdu] } := by
+            unfold Spec.Reasm.feed
+            simp only [hfin', if_true, hcur]
+            have : e.sdu.isEmpty = false := by simp [hne]
+            simp [this]
+          rw [hfeed]
+          exact { done := by
+                    have := ht.done; simp only [hne, if_false] at this
+                    simpa using this
+                  cur := by simp
+                  rem := by simp
+                  offLt := fun h => absurd rfl h
+                  offZ := fun _ => rfl }
+        · simp only [hend, if_false] at hok
+          have hh := Prod.mk.inj (Except.ok.inj hok)
+          rw [← hh.1, ← hh.2]
+          simp only [hsgl, if_true]
+          refine ⟨?_, fun _ => hdec⟩
+          rw [hfs]
+          have hfin' : h.fin = false := by rw [hfin]; simp; omega
+          have hfeed : tx.feed h p = { cur := e.sdu.take off2, remaining := e.sdu.length - off2, done := tx.done } := by
+            unfold Spec.Reasm.feed
+            simp only [hfin', Bool.false_eq_true, if_false]
+            by_cases h0 : e.off = 0
+            · have hb1 : h.beg = true := by rw [hbeg]; simp [h0]
+              simp only [hb1, if_true]
+              have : h.msgLen = e.sdu.length := hml h0
+              rw [hoff2, h0, this]
+              rw [h0] at htk
+              simp only [Nat.zero_add] at htk ⊢
+              rw [htk]; simp
+            · have hb1 : h.beg = false := by rw [hbeg]; simp [h0]
+              simp only [hb1, Bool.false_eq_true, if_false]
+              rw [ht.cur, ht.rem, hoff2, htk]
+              simp only [h0, if_false]
+              congr 1; omega
+          rw [hfeed]
+          have hoff2pos : off2 ≠ 0 := by omega
+          exact { done := ht.done
+                  cur := rfl
+                  rem := by simp [hoff2pos]
+                  offLt := fun _ => by show off2 < e.sdu.length; omega
+                  offZ := fun h => absurd h hne }
+  · have hh := Prod.mk.inj (Except.ok.inj hok)
+    rw [← hh.1, ← hh.2]
+    simp only [List.length_nil, Nat.lt_irrefl, if_false]
+    exact ⟨ht, fun h => by simp at h⟩
+
+
+theorem txRep_congr {e e' : End} {tx : Spec.Reasm} {sub : List (List Nat)} (h1 : e'.sdu = e.sdu)
+    (h2 : e'.off = e.off) (ht : TxRep e tx sub) : TxRep e' tx sub := by
+  constructor
+  · rw [h1]; exact ht.done
+  · rw [h1, h2]; exact ht.cur
+  · rw [h1, h2]; exact ht.rem
+  · rw [h1, h2]; exact ht.offLt
+  · rw [h1, h2]; exact ht.offZ
+
+theorem feed_ack_only (tx : Spec.Reasm) (h : Hdr) (hb : h.beg = false) (hf : h.fin = false) :
+    tx.feed h [] = tx := by
+  unfold Spec.Reasm.feed
+  simp [hb, hf]
+
+theorem ackStep_tx {e : End} (he : EInv e) {tx : Spec.Reasm} {sub : List (List Nat)} (ht : TxRep e tx sub)
+    {now : Nat} {e' : End} {seg : List Nat} (hok : e.ackStep now = .ok (e', seg)) :
+    TxRep e' (if seg.length > 0 then feedSeg tx seg else tx) sub ∧
+    (seg.length > 0 → ∃ h p, decodeHdr seg = .ok (h, p) ∧ h.hs = false) := by
+  unfold End.ackStep at hok
+  split at hok
+  · cases h2 : e.s.prepTxData [] 0 now with
+    | error f => rw [h2] at hok; cases hok
+    | ok r =>
+      rw [h2] at hok
+      obtain ⟨s2, sg, off2⟩ := r
+      have hh := Prod.mk.inj (Except.ok.inj hok)
+      rw [← hh.1, ← hh.2]
+      rcases prepTxData_inv h2 with ⟨h0, _, _⟩ | ⟨h, p, hb, hsg, _⟩
+      · subst h0
+        simp only [List.length_nil, Nat.lt_irrefl, if_false]
+        exact ⟨txRep_congr (e := e) rfl rfl ht, fun h => by simp at h⟩
+      · obtain ⟨hcan, hb0, hf0, _⟩ := baseHdr_canon e.s he.s
+        unfold Session.buildSegment at hb
+        simp only [List.isEmpty_nil, Bool.not_true, Bool.false_eq_true, if_false] at hb
+        have hh2 := Prod.mk.inj (Except.ok.inj hb)
+        have hsg' : sg = e.s.baseHdr.encode ++ [] := by rw [hsg, ← hh2.1, ← hh2.2]
+        have hfs : feedSeg tx sg = tx := by
+          rw [hsg', feedSeg_encode tx _ hcan, feed_ack_only tx _ hb0 hf0]
+        have hdec : ∃ h' p', decodeHdr sg = .ok (h', p') ∧ h'.hs = false :=
+          ⟨_, _, by rw [hsg']; exact decode_encode _ hcan [], hcan.hs⟩
+        refine ⟨?_, fun _ => hdec⟩
+        split
+        · rw [hfs]; exact txRep_congr (e := e) rfl rfl ht
+        · exact txRep_congr (e := e) rfl rfl ht
+  · have hh := Prod.mk.inj (Except.ok.inj hok)
+    rw [← hh.1, ← hh.2]
+    simp only [List.length_nil, Nat.lt_irrefl, if_false]
+    exact ⟨ht, fun h => by simp at h⟩
+
+/-- the pump of an end whose handshake is done: what it emits is a data / ack segment, and the
+sender-side representation is maintained -/
+theorem endOutgoing_tx {e : End} (he : EInv e) (hnp : e.s.handshakePending = false) {tx : Spec.Reasm}
+    {sub : List (List Nat)} (ht : TxRep e tx sub) {now : Nat} {e' : End} {seg : List Nat}
+    (hok : e.processOutgoing now = .ok (e', seg)) :
+    TxRep e' (if seg.length > 0 then feedSeg tx seg else tx) sub ∧
+    (seg.length > 0 → ∃ h p, decodeHdr seg = .ok (h, p) ∧ h.hs = false) ∧
+    e'.s.handshakePending = false := by
+  have c0 := endOutgoing_clean e he now
+  rw [hok] at c0
+  simp only [Clean, TxOk] at c0
+  have key : TxRep e' (if seg.length > 0 then feedSeg tx seg else tx) sub ∧
+      (seg.length > 0 → ∃ h p, decodeHdr seg = .ok (h, p) ∧ h.hs = false) := by
+    unfold End.processOutgoing at hok
+    have c1 := prepTxHandshake_clean e.s he.s e.gattMtu now
+    cases h1 : e.s.prepTxHandshake e.gattMtu now with
+    | error f => rw [h1] at hok; cases hok
+    | ok r1 =>
+      rw [h1] at hok c1
+      simp only [Clean] at c1
+      have hr1 := c1.2.2.2.1 hnp
+      rw [hr1] at hok
+      simp only [List.length_nil, Nat.lt_irrefl, if_false] at hok
+      have he1 : ({ e with s := e.s } : End) = e := rfl
+      rw [he1] at hok
+      have c2 := dataStep_clean e he hnp now
+      cases h2 : e.dataStep now with
+      | error f => rw [h2] at hok; cases hok
+      | ok r2 =>
+        rw [h2] at hok c2
+        obtain ⟨e2, sg⟩ := r2
+        simp only [Clean, TxOk] at c2
+        obtain ⟨ht2, hd2⟩ := dataStep_tx he ht h2
+        simp only at hok
+        by_cases hsl : sg.length > 0
+        · simp only [hsl, if_true] at hok
+          have hh := Prod.mk.inj (Except.ok.inj hok)
+          rw [← hh.1, ← hh.2]
+          exact ⟨ht2, hd2⟩
+        · simp only [hsl, if_false] at hok
+          simp only [hsl, if_false] at ht2
+          exact ackStep_tx c2.1 ht2 hok
+  exact ⟨key.1, key.2, c0.2.2⟩
+
+theorem endSend_tx {e : End} {tx : Spec.Reasm} {sub : List (List Nat)} (ht : TxRep e tx sub)
+    {m : List Nat} {e' : End} {ok : Bool} (hok : e.send m = .ok (e', ok)) :
+    TxRep e' tx (if ok then sub ++ [m] else sub) := by
+  unfold End.send at hok
+  split at hok
+  · cases hok
+  · rename_i hc
+    simp at hc
+    split at hok
+    · rename_i hemp
+      have hh := Prod.mk.inj (Except.ok.inj hok)
+      rw [← hh.1, ← hh.2]
+      have hsdu : e.sdu = [] := by simpa using hemp
+      have hmne : m ≠ [] := hc.1
+      simp only [if_true]
+      have hd := ht.done
+      rw [hsdu] at hd
+      simp only [if_true, List.append_nil] at hd
+      have hc0 := ht.cur
+      have hr0 := ht.rem
+      rw [ht.offZ hsdu] at hc0 hr0
+      exact { done := by simp only [hmne, if_false]; rw [hd]
+              cur := by simpa using hc0
+              rem := by simpa using hr0
+              offLt := fun _ => by
+                show 0 < m.length
+                exact List.length_pos_iff.mpr hmne
+              offZ := fun _ => rfl }
+    · have hh := Prod.mk.inj (Except.ok.inj hok)
+      rw [← hh.1, ← hh.2]
+      simpa using ht
+
+
+/-! ## One direction of an established link -/
+
+def feedAll (rs : Spec.Reasm) (q : List (List Nat)) : Spec.Reasm := q.foldl feedSeg rs
+
+/-- no handshake segment is travelling -/
+def NoHs (q : List (List Nat)) : Prop := ∀ seg ∈ q, ∃ h p, decodeHdr seg = .ok (h, p) ∧ h.hs = false
+
+theorem feedSeg_done (rs : Spec.Reasm) (seg : List Nat) : ∃ l, (feedSeg rs seg).done = rs.done ++ l := by
+  unfold feedSeg
+  split
+  · split
+    · exact ⟨[], by simp⟩
+    · exact feed_done _ _ _
+  · exact ⟨[], by simp⟩
+
+theorem feedAll_done (q : List (List Nat)) : ∀ rs : Spec.Reasm, ∃ l, (feedAll rs q).done = rs.done ++ l := by
+  induction q with
+  | nil => intro rs; exact ⟨[], by simp [feedAll]⟩
+  | cons seg q ih =>
+    intro rs
+    obtain ⟨l1, h1⟩ := feedSeg_done rs seg
+    obtain ⟨l2, h2⟩ := ih (feedSeg rs seg)
+    refine ⟨l1 ++ l2, ?_⟩
+    show (feedAll (feedSeg rs seg) q).done = _
+    rw [h2, h1]; simp
+
+theorem feedAll_snoc (rs : Spec.Reasm) (q : List (List Nat)) (seg : List Nat) :
+    feedAll rs (q ++ [seg]) = feedSeg (feedAll rs q) seg := by
+  simp [feedAll]
+
+theorem ghostRx_noHs (rs : Spec.Reasm) (n : Nat) (seg : List Nat)
+    (h : ∃ h p, decodeHdr seg = .ok (h, p) ∧ h.hs = false) :
+    ghostRx rs n seg = (feedSeg rs seg, n) := by
+  obtain ⟨hd, p, hdec, hhs⟩ := h
+  simp [ghostRx, feedSeg, hdec, hhs]
+
+@[simp] theorem get_set_same (l : LMon) (x : Side) (m : Mon) : (l.set x m).get x = m := by cases x <;> rfl
+@[simp] theorem get_set_other (l : LMon) (x : Side) (m : Mon) : (l.set x m).get x.other = l.get x.other := by
+  cases x <;> rfl
+@[simp] theorem inq_set (l : LMon) (x y : Side) (m : Mon) : (l.set x m).inq y = l.inq y := by
+  cases x <;> cases y <;> rfl
+@[simp] theorem get_setInq (l : LMon) (x y : Side) (q : List (List Nat)) : (l.setInq x q).get y = l.get y := by
+  cases x <;> cases y <;> rfl
+@[simp] theorem inq_setInq_same (l : LMon) (x : Side) (q : List (List Nat)) : (l.setInq x q).inq x = q := by
+  cases x <;> rfl
+@[simp] theorem inq_setInq_other (l : LMon) (x : Side) (q : List (List Nat)) :
+    (l.setInq x.other q).inq x = l.inq x := by cases x <;> rfl
+@[simp] theorem inq_setInq_other' (l : LMon) (x : Side) (q : List (List Nat)) :
+    (l.setInq x q).inq x.other = l.inq x.other := by cases x <;> rfl
+@[simp] theorem other_other (x : Side) : x.other.other = x := by cases x <;> rfl
+
+/-- the part of the steady-state invariant that belongs to end `x` and the direction `x → x.other` -/
+structure DirInv (l : LMon) (x : Side) : Prop where
+  pend : (l.get x).e.s.handshakePending = false
+  tx : TxRep (l.get x).e (l.get x).tx (l.get x).submitted
+  noHs : NoHs (l.inq x.other)
+  q : feedAll (l.get x.other).rs (l.inq x.other) = (l.get x).tx
+
+/-- both handshakes are done and nothing but data / ack segments is travelling -/
+def Steady (l : LMon) : Prop := ∀ x, DirInv l x
+
+
+theorem processRx_data_pending {s : Session} {g : Option Nat} {data : List Nat} {now : Nat} {s' : Session}
+    (hno : ∃ h p, decodeHdr data = .ok (h, p) ∧ h.hs = false)
+    (hok : s.processRx g data now = .ok s') : s'.handshakePending = s.handshakePending := by
+  obtain ⟨h, p, hdec, hhs⟩ := hno
+  unfold Session.processRx at hok
+  rw [hdec] at hok
+  simp only at hok
+  unfold Session.processRxSeg at hok
+  simp only [hhs, Bool.false_eq_true, if_false] at hok
+  unfold Session.processRxData at hok
+  split at hok
+  · cases hok
+  · split at hok
+    · cases hok
+    · split at hok
+      · cases hok
+      · have := Except.ok.inj hok
+        rw [← this]
+
+theorem endIncoming_frame {e : End} {data : List Nat} {now : Nat} {e' : End}
+    (hok : e.processIncoming data now = .ok e') : e'.sdu = e.sdu ∧ e'.off = e.off ∧
+      ((∃ h p, decodeHdr data = .ok (h, p) ∧ h.hs = false) → e'.s.handshakePending = e.s.handshakePending) := by
+  unfold End.processIncoming at hok
+  cases h : e.s.processRx e.gattMtu data now with
+  | error f => rw [h] at hok; cases hok
+  | ok s' =>
+    rw [h] at hok
+    have := Except.ok.inj hok
+    rw [← this]
+    exact ⟨rfl, rfl, fun hno => processRx_data_pending hno h⟩
+
+theorem endRecv_frame {e : End} {cap : Nat} {e' : End} {m : Option (List Nat)}
+    (hok : e.recv cap = .ok (e', m)) : e'.sdu = e.sdu ∧ e'.off = e.off ∧
+      e'.s.handshakePending = e.s.handshakePending := by
+  unfold End.recv at hok
+  split at hok
+  · unfold Session.fetchMessage at hok
+    cases h : e.s.recv.fetchMessage cap with
+    | error f => rw [h] at hok; cases hok
+    | ok r =>
+      rw [h] at hok
+      have hh := Prod.mk.inj (Except.ok.inj hok)
+      rw [← hh.1]
+      exact ⟨rfl, rfl, rfl⟩
+  · have hh := Prod.mk.inj (Except.ok.inj hok)
+    rw [← hh.1]; exact ⟨rfl, rfl, rfl⟩
+
+theorem endSend_frame {e : End} {m : List Nat} {e' : End} {ok : Bool}
+    (hok : e.send m = .ok (e', ok)) : e'.s = e.s := by
+  unfold End.send at hok
+  split at hok
+  · cases hok
+  · split at hok
+    · have hh := Prod.mk.inj (Except.ok.inj hok); rw [← hh.1]
+    · have hh := Prod.mk.inj (Except.ok.inj hok); rw [← hh.1]
+
+/-- an operation of end `x` that touches neither queue and leaves `rs`, `tx`, `submitted`-vs-`sdu`
+consistent preserves the steady state -/
+theorem steady_set {l : LMon} (hst : Steady l) (x : Side) {m : Mon}
+    (hp : m.e.s.handshakePending = false) (ht : TxRep m.e m.tx m.submitted)
+    (hrs : m.rs = (l.get x).rs) (htx : m.tx = (l.get x).tx) : Steady (l.set x m) := by
+  intro y
+  by_cases hy : y = x
+  · subst hy
+    have d := hst y
+    exact ⟨by simpa using hp, by simpa using ht, by simpa using d.noHs, by
+      simp only [get_set_other, inq_set, get_set_same]; rw [htx]; exact d.q⟩
+  · have hyo : y = x.other := by cases x <;> cases y <;> simp_all [Side.other]
+    subst hyo
+    have d := hst x.other
+    refine ⟨by simpa using d.pend, by simpa using d.tx, by simpa using d.noHs, ?_⟩
+    simp only [other_other, get_set_same, inq_set, get_set_other]
+    rw [hrs]
+    have := d.q
+    simpa using this
+
+
+theorem steady_step {l : LMon} (hl : LInv l) (hst : Steady l) {op : Op} {l' : LMon} {o : Out}
+    (hok : l.step op = .ok (l', o)) : Steady l' := by
+  cases op with
+  | send x m =>
+    simp only [LMon.step, Mon.step] at hok
+    cases h : (l.get x).e.send m with
+    | error f => rw [h] at hok; cases hok
+    | ok r =>
+      rw [h] at hok
+      obtain ⟨e', ok⟩ := r
+      have hh := Prod.mk.inj (Except.ok.inj hok)
+      rw [← hh.1]
+      have d := hst x
+      apply steady_set hst x
+      · show e'.s.handshakePending = false
+        rw [endSend_frame h]; exact d.pend
+      · exact endSend_tx d.tx h
+      · rfl
+      · rfl
+  | poll x =>
+    simp only [LMon.step, Mon.step] at hok
+    cases h : (l.get x).e.processOutgoing l.now with
+    | error f => rw [h] at hok; cases hok
+    | ok r =>
+      rw [h] at hok
+      obtain ⟨e', seg⟩ := r
+      have d := hst x
+      obtain ⟨ht', hdec, hp'⟩ := endOutgoing_tx (hl.get x).1.e d.pend d.tx h
+      simp only at hok
+      by_cases hsl : seg.length > 0
+      · simp only [hsl, if_true] at hok
+        have hh := Prod.mk.inj (Except.ok.inj hok)
+        rw [← hh.1]
+        simp only [hsl, if_true] at ht'
+        intro y
+        by_cases hy : y = x
+        · subst hy
+          refine ⟨by simpa using hp', by simpa using ht', ?_, ?_⟩
+          · simp only [inq_setInq_same]
+            intro sg hsg
+            rcases List.mem_append.mp hsg with h1 | h1
+            · exact d.noHs sg (by simpa using h1)
+            · have : sg = seg := by simpa using h1
+              rw [this]; exact hdec hsl
+          · simp only [inq_setInq_same, get_setInq, get_set_other, get_set_same, inq_set]
+            rw [feedAll_snoc, d.q]
+        · have hyo : y = x.other := by cases x <;> cases y <;> simp_all [Side.other]
+          subst hyo
+          have d2 := hst x.other
+          refine ⟨by simpa using d2.pend, by simpa using d2.tx, ?_, ?_⟩
+          · simp only [other_other, inq_setInq_other, inq_set]
+            have := d2.noHs; simpa using this
+          · simp only [other_other, inq_setInq_other, inq_set, get_setInq, get_set_same, get_set_other]
+            have := d2.q; simpa using this
+      · simp only [hsl, if_false] at hok
+        have hh := Prod.mk.inj (Except.ok.inj hok)
+        rw [← hh.1]
+        simp only [hsl, if_false] at ht'
+        exact steady_set hst x hp' ht' rfl rfl
+  | deliver x =>
+    simp only [LMon.step] at hok
+    cases hq : l.inq x with
+    | nil =>
+      rw [hq] at hok
+      have hh := Prod.mk.inj (Except.ok.inj hok)
+      rw [← hh.1]; exact hst
+    | cons seg rest =>
+      rw [hq] at hok
+      simp only [Mon.step] at hok
+      cases h : (l.get x).e.processIncoming seg l.now with
+      | error f => rw [h] at hok; cases hok
+      | ok e' =>
+        rw [h] at hok
+        have hh := Prod.mk.inj (Except.ok.inj hok)
+        rw [← hh.1]
+        have d := hst x
+        have d2 := hst x.other
+        have hnoq : NoHs (seg :: rest) := by
+          have := d2.noHs; simp only [other_other] at this; rw [hq] at this; exact this
+        have hsegno := hnoq seg (by simp)
+        obtain ⟨hf1, hf2, hf3⟩ := endIncoming_frame h
+        rw [ghostRx_noHs _ _ _ hsegno]
+        intro y
+        by_cases hy : y = x
+        · subst hy
+          refine ⟨?_, ?_, ?_, ?_⟩
+          · simp only [get_setInq, get_set_same]
+            rw [hf3 hsegno]; exact d.pend
+          · simp only [get_setInq, get_set_same]
+            exact txRep_congr (e := (l.get y).e) hf1 hf2 d.tx
+          · simp only [inq_setInq_other', inq_set]; exact d.noHs
+          · simp only [inq_setInq_other', inq_set, get_setInq, get_set_other, get_set_same]
+            exact d.q
+        · have hyo : y = x.other := by cases x <;> cases y <;> simp_all [Side.other]
+          subst hyo
+          refine ⟨by simpa using d2.pend, by simpa using d2.tx, ?_, ?_⟩
+          · simp only [other_other, inq_setInq_same]
+            exact fun sg hsg => hnoq sg (by simp [hsg])
+          · simp only [other_other, inq_setInq_same, get_setInq, get_set_same, get_set_other]
+            have := d2.q
+            simp only [other_other] at this
+            rw [hq] at this
+            exact this
+  | tick n =>
+    simp only [LMon.step] at hok
+    have hh := Prod.mk.inj (Except.ok.inj hok)
+    rw [← hh.1]
+    intro y
+    have d := hst y
+    cases y <;> exact ⟨d.pend, d.tx, d.noHs, d.q⟩
+  | fetch x cap =>
+    simp only [LMon.step, Mon.step] at hok
+    cases h : (l.get x).e.recv cap with
+    | error f => rw [h] at hok; cases hok
+    | ok r =>
+      rw [h] at hok
+      obtain ⟨e', mo⟩ := r
+      have d := hst x
+      obtain ⟨hf1, hf2, hf3⟩ := endRecv_frame h
+      cases mo with
+      | none =>
+        have hh := Prod.mk.inj (Except.ok.inj hok)
+        rw [← hh.1]
+        exact steady_set hst x (by show e'.s.handshakePending = false; rw [hf3]; exact d.pend)
+          (txRep_congr (e := (l.get x).e) hf1 hf2 d.tx) rfl rfl
+      | some bb =>
+        have hh := Prod.mk.inj (Except.ok.inj hok)
+        rw [← hh.1]
+        exact steady_set hst x (by show e'.s.handshakePending = false; rw [hf3]; exact d.pend)
+          (txRep_congr (e := (l.get x).e) hf1 hf2 d.tx) rfl rfl
 
 end Btp
